@@ -1282,19 +1282,18 @@ Proof.
     rewrite forallb_forall in Hclosed. apply mem_str_In. auto. }
   rewrite forallb_forall in Hrels, Hpn.
   split; [|split; [|split]].
-  - destruct (lookup ct_uri p) as [cb|]; [|discriminate]. destruct (dec_ct E cb) as [c|]; [|discriminate].
-    exists cb, c. repeat split; auto. intros x Hx Hn. rewrite forallb_forall in Hct.
+  - destruct (lookup ct_uri p) as [cb|] eqn:Ecb; [|discriminate]. destruct (dec_ct E cb) as [c|] eqn:Ec; [|discriminate].
+    exists cb, c. split; [auto|split; [auto|]]. intros x Hx Hn. rewrite forallb_forall in Hct.
     specialize (Hct x (HL x Hx)). apply str_eqb_neq in Hn. rewrite Hn in Hct. simpl in Hct.
     destruct (ct_lookup c x) as [ct|]; [|discriminate]. destruct (lookup x p) as [b|]; [|discriminate].
-    exists ct, b. repeat split; auto. intros Hx'. rewrite Hx' in Hct. simpl in Hct.
+    exists ct, b. split; [auto|split; [auto|]]. intros Hx'. rewrite Hx' in Hct. simpl in Hct.
     destruct (reser E b) as [b'|]; [eauto|discriminate].
   - intros x Hx. specialize (Hrels x (HL x Hx)). destruct (rels_for E p x) as [rs|]; [|discriminate].
-    apply andb_true_iff in Hrels as [H1 H2]. exists rs. repeat split; auto.
-    + apply nodupb_NoDup; auto.
-    + rewrite forallb_forall in H2. specialize (H2 r H). apply andb_true_iff in H2 as [H2 _].
-      intros Hm. rewrite Hm in H2. discriminate.
-    + rewrite forallb_forall in H2. specialize (H2 r H). apply andb_true_iff in H2 as [_ H2].
-      intros He. rewrite He in H2. simpl in H2. apply negb_true_iff in H2. apply str_eqb_neq; auto.
+    apply andb_true_iff in Hrels as [H1 H2]. exists rs. split; [auto|split; [apply nodupb_NoDup; auto|]].
+    intros r Hr. rewrite forallb_forall in H2. specialize (H2 r Hr). apply andb_true_iff in H2 as [H2 H3].
+    split.
+    + intros Hm. rewrite Hm in H2. discriminate.
+    + intros He. rewrite He in H3. simpl in H3. apply negb_true_iff in H3. apply str_eqb_neq; auto.
   - intros x Hx Hn. specialize (Hpn x (HL x Hx)). apply str_eqb_neq in Hn. rewrite Hn in Hpn.
     apply part_nameb_sound; auto.
   - intros x y Hx Hy He. apply nodupb_NoDup in Hcase.
@@ -1309,5 +1308,332 @@ Proof.
   { apply (proj1 (names_spec E p (wfb_sound E p Hwfb))). }
   unfold no_default_clashb in H. rewrite forallb_forall in H. specialize (H x (HL x Hx)).
   rewrite forallb_forall in H. specialize (H y (HL y Hy)). rewrite Cx, Cy in H.
-  rewrite He, Tx, Ty, str_eqb_refl in H. simpl in H. apply str_eqb_eq; auto.
+  rewrite Tx, Ty, He, str_eqb_refl in H. simpl in H. apply str_eqb_eq; auto.
+Qed.
+
+(** ---- the order used by sorted() ---- *)
+
+Lemma str_ltb_irrefl a : str_ltb a a = false.
+Proof. induction a as [|x a IH]; simpl; auto. rewrite N.ltb_irrefl, N.eqb_refl. auto. Qed.
+
+Lemma str_ltb_trans a : forall b c, str_ltb a b = true -> str_ltb b c = true -> str_ltb a c = true.
+Proof.
+  induction a as [|x a IH]; intros [|y b] [|z c]; simpl; try discriminate; auto.
+  destruct (N.ltb_spec x y) as [Hxy|Hxy].
+  - intros _. destruct (N.ltb_spec y z) as [Hyz|Hyz].
+    + intros _. destruct (N.ltb_spec x z); auto. lia.
+    + destruct (N.eqb_spec y z) as [->|Hne]; [|discriminate]. intros _.
+      destruct (N.ltb_spec x z); auto. lia.
+  - destruct (N.eqb_spec x y) as [->|Hne]; [|discriminate]. intros Hab.
+    destruct (N.ltb_spec y z) as [Hyz|Hyz]; auto.
+    destruct (N.eqb_spec y z) as [->|Hne]; [|discriminate]. apply IH; auto.
+Qed.
+
+Lemma str_ltb_tricho a : forall b, str_ltb a b = false -> str_ltb b a = false -> a = b.
+Proof.
+  induction a as [|x a IH]; intros [|y b]; simpl; try discriminate; auto.
+  destruct (N.ltb_spec x y) as [Hxy|Hxy]; [discriminate|].
+  destruct (N.ltb_spec y x) as [Hyx|Hyx]; [destruct (N.eqb_spec x y); [lia|discriminate]|].
+  assert (x = y) by lia. subst y. rewrite N.eqb_refl. intros H1 H2. f_equal. apply IH; auto.
+Qed.
+
+Lemma str_ltb_asym a b : str_ltb a b = true -> str_ltb b a = false.
+Proof.
+  intros H. destruct (str_ltb b a) eqn:E; auto.
+  pose proof (str_ltb_trans _ _ _ H E) as Hc. rewrite str_ltb_irrefl in Hc. discriminate.
+Qed.
+
+Lemma str_leb_total a b : str_leb a b = false -> str_leb b a = true.
+Proof. unfold str_leb. intros H. apply negb_false_iff in H. rewrite (str_ltb_asym _ _ H). auto. Qed.
+
+Lemma str_leb_refl a : str_leb a a = true.
+Proof. unfold str_leb. rewrite str_ltb_irrefl. auto. Qed.
+
+Lemma str_leb_antisym a b : str_leb a b = true -> str_leb b a = true -> a = b.
+Proof. unfold str_leb. intros H1 H2. apply negb_true_iff in H1, H2. apply str_ltb_tricho; auto. Qed.
+
+Lemma str_leb_trans a b c : str_leb a b = true -> str_leb b c = true -> str_leb a c = true.
+Proof.
+  unfold str_leb. intros H1 H2. apply negb_true_iff in H1, H2. apply negb_true_iff.
+  destruct (str_ltb c a) eqn:Eca; auto.
+  destruct (str_ltb a b) eqn:Eab.
+  - pose proof (str_ltb_trans _ _ _ Eca Eab). congruence.
+  - assert (a = b) by (apply str_ltb_tricho; auto). subst. congruence.
+Qed.
+
+(** generic facts about insertion sort for a total relation *)
+Section Sort.
+Context {A : Type}.
+Variable leb : A -> A -> bool.
+Hypothesis leb_total : forall a b, leb a b = false -> leb b a = true.
+
+Inductive lsorted : list A -> Prop :=
+| ls_nil : lsorted []
+| ls_one a : lsorted [a]
+| ls_cons a b l : leb a b = true -> lsorted (b :: l) -> lsorted (a :: b :: l).
+
+Lemma insert_lsorted x l : lsorted l -> lsorted (insert_by leb x l).
+Proof.
+  induction 1 as [|a|a b l Hab Hs IH]; simpl.
+  - constructor.
+  - destruct (leb x a) eqn:E.
+    + constructor; auto. constructor.
+    + constructor; [apply leb_total; auto|constructor].
+  - destruct (leb x a) eqn:E.
+    + constructor; auto. constructor; auto.
+    + simpl in IH. destruct (leb x b) eqn:E2.
+      * constructor; [apply leb_total; auto|]. constructor; auto.
+      * constructor; auto.
+Qed.
+
+Lemma sort_lsorted l : lsorted (sort_by leb l).
+Proof. induction l; simpl; [constructor|apply insert_lsorted; auto]. Qed.
+
+Lemma sort_of_lsorted l : lsorted l -> sort_by leb l = l.
+Proof.
+  induction 1 as [|a|a b l Hab Hs IH]; simpl; auto.
+  simpl in IH. rewrite IH. simpl. rewrite Hab. reflexivity.
+Qed.
+
+Lemma sort_idem l : sort_by leb (sort_by leb l) = sort_by leb l.
+Proof. apply sort_of_lsorted, sort_lsorted. Qed.
+
+Hypothesis leb_trans : forall a b c, leb a b = true -> leb b c = true -> leb a c = true.
+Hypothesis leb_antisym : forall a b, leb a b = true -> leb b a = true -> a = b.
+
+Lemma lsorted_head a l : lsorted (a :: l) -> forall b, In b l -> leb a b = true.
+Proof.
+  revert a. induction l as [|c l IH]; intros a H b Hb; [destruct Hb|].
+  inversion H; subst. destruct Hb as [<-|Hb]; auto. eapply leb_trans; [eassumption|]. apply IH; auto.
+Qed.
+
+Lemma lsorted_tail a l : lsorted (a :: l) -> lsorted l.
+Proof. intros H. inversion H; subst; auto. constructor. Qed.
+
+Lemma lsorted_perm_eq l1 : forall l2, lsorted l1 -> lsorted l2 -> Permutation l1 l2 ->
+  (forall a, In a l1 -> leb a a = true) -> l1 = l2.
+Proof.
+  induction l1 as [|a l1 IH]; intros l2 H1 H2 HP Hr.
+  - apply Permutation_nil in HP. auto.
+  - destruct l2 as [|b l2]; [apply Permutation_sym, Permutation_nil in HP; discriminate|].
+    assert (a = b).
+    { assert (Ha : In a (b :: l2)) by (eapply Permutation_in; [exact HP|simpl; auto]).
+      assert (Hb : In b (a :: l1)) by (eapply Permutation_in; [apply Permutation_sym, HP|simpl; auto]).
+      destruct Ha as [->|Ha]; auto. destruct Hb as [->|Hb]; auto.
+      apply leb_antisym; [eapply lsorted_head; eauto|eapply lsorted_head; eauto]. }
+    subst b. f_equal. apply IH.
+    + eapply lsorted_tail; eauto.
+    + eapply lsorted_tail; eauto.
+    + eapply Permutation_cons_inv; eauto.
+    + intros; apply Hr; simpl; auto.
+Qed.
+
+Lemma sort_perm_eq l1 l2 : Permutation l1 l2 -> (forall a, leb a a = true) ->
+  sort_by leb l1 = sort_by leb l2.
+Proof.
+  intros HP Hr. apply lsorted_perm_eq; auto using sort_lsorted.
+  eapply perm_trans; [apply sort_by_perm|]. eapply perm_trans; [exact HP|apply Permutation_sym, sort_by_perm].
+Qed.
+End Sort.
+
+Lemma pair_leb_total a b : pair_leb a b = false -> pair_leb b a = true.
+Proof.
+  unfold pair_leb. destruct (str_ltb (fst a) (fst b)) eqn:E1; [discriminate|].
+  destruct (str_eqb_spec (fst a) (fst b)) as [He|Hne].
+  - rewrite He, str_ltb_irrefl, str_eqb_refl. apply str_leb_total.
+  - intros _. destruct (str_ltb (fst b) (fst a)) eqn:E2; auto.
+    exfalso. apply Hne. apply str_ltb_tricho; auto.
+Qed.
+
+Lemma pair_leb_refl a : pair_leb a a = true.
+Proof. unfold pair_leb. rewrite str_ltb_irrefl, str_eqb_refl. apply str_leb_refl. Qed.
+
+Lemma pair_leb_antisym a b : pair_leb a b = true -> pair_leb b a = true -> a = b.
+Proof.
+  unfold pair_leb. destruct a as [a1 a2], b as [b1 b2]. simpl.
+  destruct (str_ltb a1 b1) eqn:E1.
+  - rewrite (str_ltb_asym _ _ E1). destruct (str_eqb_spec b1 a1) as [->|Hn]; [|discriminate].
+    rewrite str_ltb_irrefl in E1. discriminate.
+  - destruct (str_eqb_spec a1 b1) as [->|Hn]; [|discriminate].
+    rewrite str_ltb_irrefl, str_eqb_refl. intros H1 H2. f_equal. apply str_leb_antisym; auto.
+Qed.
+
+Lemma pair_leb_trans a b c : pair_leb a b = true -> pair_leb b c = true -> pair_leb a c = true.
+Proof.
+  unfold pair_leb. destruct a as [a1 a2], b as [b1 b2], c as [c1 c2]. simpl.
+  destruct (str_ltb a1 b1) eqn:E1.
+  - intros _. destruct (str_ltb b1 c1) eqn:E2.
+    + intros _. rewrite (str_ltb_trans _ _ _ E1 E2). auto.
+    + destruct (str_eqb_spec b1 c1) as [->|Hn]; [|discriminate]. rewrite E1. auto.
+  - destruct (str_eqb_spec a1 b1) as [->|Hn]; [|discriminate]. intros H1.
+    destruct (str_ltb b1 c1) eqn:E2; auto.
+    destruct (str_eqb_spec b1 c1) as [->|Hn]; [|discriminate]. intros H2.
+    eapply str_leb_trans; eauto.
+Qed.
+
+Lemma rid_leb_total a b : rid_leb a b = false -> rid_leb b a = true.
+Proof.
+  unfold rid_leb. destruct (N.ltb_spec (rid_num a) (rid_num b)); [discriminate|].
+  destruct (N.eqb_spec (rid_num a) (rid_num b)) as [He|Hne].
+  - rewrite He, N.ltb_irrefl, N.eqb_refl. apply str_leb_total.
+  - intros _. destruct (N.ltb_spec (rid_num b) (rid_num a)); auto. lia.
+Qed.
+
+(** ---- the content types item does not depend on the order of the parts ---- *)
+
+Section CTIperm.
+Context {blob : Type}.
+Variable E : env blob.
+Hypothesis Henv : env_ok E.
+
+Definition nct (pt : part blob) : str * str := (p_name pt, p_ct pt).
+
+Lemma cti_step_nct acc (a b : part blob) : nct a = nct b -> cti_step E acc a = cti_step E acc b.
+Proof. unfold nct, cti_step. intros H. inversion H as [[H1 H2]]. rewrite H1, H2. reflexivity. Qed.
+
+Lemma cti_cong (La Lb : list (part blob)) : map nct La = map nct Lb ->
+  forall acc, fold_left (cti_step E) La acc = fold_left (cti_step E) Lb acc.
+Proof.
+  revert Lb. induction La as [|a La IH]; intros [|b Lb] H acc; try discriminate; auto.
+  cbn [map] in H. injection H as H1 H2 H3. cbn [fold_left].
+  assert (Hn : nct a = nct b) by (unfold nct; congruence).
+  rewrite (cti_step_nct acc a b Hn). apply IH; auto.
+Qed.
+
+Definition clashfree (L : list (part blob)) : Prop :=
+  forall a b, In a L -> In b L -> intab E a = true -> intab E b = true -> pext a = pext b -> p_ct a = p_ct b.
+
+Lemma cti_defaults_sub La Lb key v :
+  (forall pt, In pt La <-> In pt Lb) -> clashfree La ->
+  lookup key (fst (fold_left (cti_step E) La (initdefs E, []))) = Some v ->
+  lookup key (fst (fold_left (cti_step E) Lb (initdefs E, []))) = Some v.
+Proof.
+  intros Hiff Hcf H. apply cti_defaults_val in H as [(pt & Hpt & Hi & He & Hct)|[Hinit Hno]].
+  - assert (Hb : In pt Lb) by (apply Hiff; auto).
+    destruct (cti_defaults_key E Lb (initdefs E) [] pt Hb Hi) as (v' & Hv'). rewrite He in Hv'.
+    rewrite Hv'. f_equal.
+    apply cti_defaults_val in Hv' as [(pt' & Hpt' & Hi' & He' & Hct')|[_ Hno]].
+    + rewrite <- Hct, <- Hct'. apply Hcf; auto; [apply Hiff; auto|congruence].
+    + exfalso. apply (Hno pt Hb Hi He).
+  - destruct (cti_defaults_mono E Lb (initdefs E) [] key (ex_intro _ v Hinit)) as (v' & Hv').
+    rewrite Hv'. f_equal.
+    apply cti_defaults_val in Hv' as [(pt' & Hpt' & Hi' & He' & Hct')|[Hinit' _]].
+    + exfalso. apply (Hno pt'); auto. apply Hiff; auto.
+    + congruence.
+Qed.
+
+Lemma NoDup_keys_pairs {V} (d : list (str * V)) : NoDup (map fst d) -> NoDup d.
+Proof. apply NoDup_map_inv. Qed.
+
+Lemma cti_perm La Lb : Permutation La Lb -> NoDup (map p_name La) -> clashfree La ->
+  content_types_item E La = content_types_item E Lb.
+Proof.
+  intros HP Hnd Hcf. unfold content_types_item, defaults_and_overrides.
+  destruct (fold_left (cti_step E) La (initdefs E, [])) as [Da Oa] eqn:Ea.
+  destruct (fold_left (cti_step E) Lb (initdefs E, [])) as [Db Ob] eqn:Eb.
+  assert (Hiff : forall pt, In pt La <-> In pt Lb).
+  { intros pt; split; intros H; [eapply Permutation_in; eauto|eapply Permutation_in; [apply Permutation_sym|]; eauto]. }
+  assert (Hndb : NoDup (map p_name Lb)) by (eapply Permutation_NoDup; [apply Permutation_map, HP|auto]).
+  assert (Hcfb : clashfree Lb) by (intros a b Ha Hb; apply Hcf; apply Hiff; auto).
+  destruct Henv as [Hi1 Hi2].
+  assert (Hlow : forall k0, In k0 (map fst (initdefs E)) -> lower k0 = k0).
+  { intros k0 Hk. apply in_map_iff in Hk as (kv & <- & Hkv). auto. }
+  f_equal.
+  - (* defaults *)
+    apply (sort_perm_eq pair_leb pair_leb_total pair_leb_trans pair_leb_antisym); [|apply pair_leb_refl].
+    destruct (cti_defaults_keys E La (initdefs E) [] Hi1 Hlow) as [Ka _].
+    destruct (cti_defaults_keys E Lb (initdefs E) [] Hi1 Hlow) as [Kb _].
+    rewrite Ea in Ka. rewrite Eb in Kb. simpl in Ka, Kb.
+    apply NoDup_Permutation; auto using NoDup_keys_pairs.
+    intros [key v]. split; intros H.
+    + apply lookup_In. change Db with (fst (Db, Ob)). rewrite <- Eb.
+      apply (cti_defaults_sub La Lb); auto. rewrite Ea. simpl. apply lookup_NoDup_In; auto.
+    + apply lookup_In. change Da with (fst (Da, Oa)). rewrite <- Ea.
+      apply (cti_defaults_sub Lb La); auto; [intros; symmetry; apply Hiff|].
+      rewrite Eb. simpl. apply lookup_NoDup_In; auto.
+  - (* overrides *)
+    apply (sort_perm_eq pair_leb pair_leb_total pair_leb_trans pair_leb_antisym); [|apply pair_leb_refl].
+    change Oa with (snd (Da, Oa)). change Ob with (snd (Db, Ob)). rewrite <- Ea, <- Eb.
+    rewrite !cti_overrides by auto. simpl.
+    apply Permutation_map. clear - HP. induction HP; simpl; auto.
+    + destruct (negb (intab E x)); auto.
+    + destruct (negb (intab E x)), (negb (intab E y)); auto. apply perm_swap.
+    + eapply perm_trans; eauto.
+Qed.
+End CTIperm.
+
+(** ---- the extracted instance and two concrete packages (non-vacuity, refutation) ---- *)
+From V.model Require Import OpcRun.
+From V.gen Require Import GenC01.
+
+Lemma wenv_codec_ok : codec_ok wenv.
+Proof.
+  split; [|split]; try reflexivity.
+  intros b b' H. simpl in *. unfold w_reser in *.
+  destruct (N.eqb (w_flag b) 0); [discriminate|]. inversion H; subst. reflexivity.
+Qed.
+
+Lemma wenv_env_ok : env_ok wenv.
+Proof.
+  split.
+  - apply nodupb_NoDup. vm_compute. reflexivity.
+  - intros kv Hin. assert (H : forallb (fun kv : str * str => str_eqb (lower (fst kv)) (fst kv)) (initdefs wenv) = true)
+      by (vm_compute; reflexivity).
+    rewrite forallb_forall in H. apply str_eqb_eq. apply H; auto.
+Qed.
+
+(* a small deck: presentation -> slide -> image, a self reference written with a dot
+   segment, an external link, an Override whose part name differs in case, a Default
+   whose extension is upper case, an unreferenced thumbnail *)
+Definition ex_deck : phys wblob :=
+  [([47; 91; 67; 111; 110; 116; 101; 110; 116; 95; 84; 121; 112; 101; 115; 93; 46; 120; 109; 108]%N, mkW 1 1 None (Some ([([120; 109; 108]%N, [97; 112; 112; 108; 105; 99; 97; 116; 105; 111; 110; 47; 120; 109; 108]%N); ([114; 101; 108; 115]%N, [97; 112; 112; 108; 105; 99; 97; 116; 105; 111; 110; 47; 118; 110; 100; 46; 111; 112; 101; 110; 120; 109; 108; 102; 111; 114; 109; 97; 116; 115; 45; 112; 97; 99; 107; 97; 103; 101; 46; 114; 101; 108; 97; 116; 105; 111; 110; 115; 104; 105; 112; 115; 43; 120; 109; 108]%N); ([80; 78; 71]%N, [105; 109; 97; 103; 101; 47; 112; 110; 103]%N)], [([47; 112; 112; 116; 47; 112; 114; 101; 115; 101; 110; 116; 97; 116; 105; 111; 110; 46; 120; 109; 108]%N, [97; 112; 112; 108; 105; 99; 97; 116; 105; 111; 110; 47; 118; 110; 100; 46; 111; 112; 101; 110; 120; 109; 108; 102; 111; 114; 109; 97; 116; 115; 45; 111; 102; 102; 105; 99; 101; 100; 111; 99; 117; 109; 101; 110; 116; 46; 112; 114; 101; 115; 101; 110; 116; 97; 116; 105; 111; 110; 109; 108; 46; 112; 114; 101; 115; 101; 110; 116; 97; 116; 105; 111; 110; 46; 109; 97; 105; 110; 43; 120; 109; 108]%N); ([47; 80; 80; 84; 47; 115; 108; 105; 100; 101; 115; 47; 115; 108; 105; 100; 101; 49; 46; 88; 77; 76]%N, [97; 112; 112; 108; 105; 99; 97; 116; 105; 111; 110; 47; 118; 110; 100; 46; 111; 112; 101; 110; 120; 109; 108; 102; 111; 114; 109; 97; 116; 115; 45; 111; 102; 102; 105; 99; 101; 100; 111; 99; 117; 109; 101; 110; 116; 46; 112; 114; 101; 115; 101; 110; 116; 97; 116; 105; 111; 110; 109; 108; 46; 115; 108; 105; 100; 101; 43; 120; 109; 108]%N)])));
+   ([47; 95; 114; 101; 108; 115; 47; 46; 114; 101; 108; 115]%N, mkW 2 1 (Some [mkRel [114; 73; 100; 49]%N [104; 116; 116; 112; 58; 47; 47; 115; 99; 104; 101; 109; 97; 115; 46; 111; 112; 101; 110; 120; 109; 108; 102; 111; 114; 109; 97; 116; 115; 46; 111; 114; 103; 47; 111; 102; 102; 105; 99; 101; 68; 111; 99; 117; 109; 101; 110; 116; 47; 50; 48; 48; 54; 47; 114; 101; 108; 97; 116; 105; 111; 110; 115; 104; 105; 112; 115; 47; 111; 102; 102; 105; 99; 101; 68; 111; 99; 117; 109; 101; 110; 116]%N [112; 112; 116; 47; 112; 114; 101; 115; 101; 110; 116; 97; 116; 105; 111; 110; 46; 120; 109; 108]%N MInt]) None);
+   ([47; 112; 112; 116; 47; 112; 114; 101; 115; 101; 110; 116; 97; 116; 105; 111; 110; 46; 120; 109; 108]%N, mkW 3 1 None None);
+   ([47; 112; 112; 116; 47; 95; 114; 101; 108; 115; 47; 112; 114; 101; 115; 101; 110; 116; 97; 116; 105; 111; 110; 46; 120; 109; 108; 46; 114; 101; 108; 115]%N, mkW 4 1 (Some [mkRel [114; 73; 100; 55]%N [104; 116; 116; 112; 58; 47; 47; 115; 99; 104; 101; 109; 97; 115; 46; 111; 112; 101; 110; 120; 109; 108; 102; 111; 114; 109; 97; 116; 115; 46; 111; 114; 103; 47; 111; 102; 102; 105; 99; 101; 68; 111; 99; 117; 109; 101; 110; 116; 47; 50; 48; 48; 54; 47; 114; 101; 108; 97; 116; 105; 111; 110; 115; 104; 105; 112; 115; 47; 115; 108; 105; 100; 101]%N [115; 108; 105; 100; 101; 115; 47; 115; 108; 105; 100; 101; 49; 46; 120; 109; 108]%N MInt; mkRel [114; 73; 100; 50]%N [104; 116; 116; 112; 58; 47; 47; 115; 99; 104; 101; 109; 97; 115; 46; 111; 112; 101; 110; 120; 109; 108; 102; 111; 114; 109; 97; 116; 115; 46; 111; 114; 103; 47; 111; 102; 102; 105; 99; 101; 68; 111; 99; 117; 109; 101; 110; 116; 47; 50; 48; 48; 54; 47; 114; 101; 108; 97; 116; 105; 111; 110; 115; 104; 105; 112; 115; 47; 104; 121; 112; 101; 114; 108; 105; 110; 107]%N [104; 116; 116; 112; 115; 58; 47; 47; 101; 120; 97; 109; 112; 108; 101; 46; 99; 111; 109; 47]%N MExt]) None);
+   ([47; 112; 112; 116; 47; 115; 108; 105; 100; 101; 115; 47; 115; 108; 105; 100; 101; 49; 46; 120; 109; 108]%N, mkW 5 1 None None);
+   ([47; 112; 112; 116; 47; 115; 108; 105; 100; 101; 115; 47; 95; 114; 101; 108; 115; 47; 115; 108; 105; 100; 101; 49; 46; 120; 109; 108; 46; 114; 101; 108; 115]%N, mkW 6 1 (Some [mkRel [114; 73; 100; 49]%N [104; 116; 116; 112; 58; 47; 47; 115; 99; 104; 101; 109; 97; 115; 46; 111; 112; 101; 110; 120; 109; 108; 102; 111; 114; 109; 97; 116; 115; 46; 111; 114; 103; 47; 111; 102; 102; 105; 99; 101; 68; 111; 99; 117; 109; 101; 110; 116; 47; 50; 48; 48; 54; 47; 114; 101; 108; 97; 116; 105; 111; 110; 115; 104; 105; 112; 115; 47; 105; 109; 97; 103; 101]%N [46; 46; 47; 109; 101; 100; 105; 97; 47; 105; 109; 97; 103; 101; 49; 46; 112; 110; 103]%N MInt; mkRel [114; 73; 100; 50]%N [104; 116; 116; 112; 58; 47; 47; 115; 99; 104; 101; 109; 97; 115; 46; 111; 112; 101; 110; 120; 109; 108; 102; 111; 114; 109; 97; 116; 115; 46; 111; 114; 103; 47; 111; 102; 102; 105; 99; 101; 68; 111; 99; 117; 109; 101; 110; 116; 47; 50; 48; 48; 54; 47; 114; 101; 108; 97; 116; 105; 111; 110; 115; 104; 105; 112; 115; 47; 115; 108; 105; 100; 101]%N [47; 112; 112; 116; 47; 115; 108; 105; 100; 101; 115; 47; 46; 47; 115; 108; 105; 100; 101; 49; 46; 120; 109; 108]%N MInt]) None);
+   ([47; 112; 112; 116; 47; 109; 101; 100; 105; 97; 47; 105; 109; 97; 103; 101; 49; 46; 112; 110; 103]%N, mkW 7 0 None None);
+   ([47; 100; 111; 99; 80; 114; 111; 112; 115; 47; 116; 104; 117; 109; 98; 110; 97; 105; 108; 46; 106; 112; 101; 103]%N, mkW 8 0 None None)].
+Definition ex_clash : phys wblob :=
+  [([47; 91; 67; 111; 110; 116; 101; 110; 116; 95; 84; 121; 112; 101; 115; 93; 46; 120; 109; 108]%N, mkW 1 1 None (Some ([([114; 101; 108; 115]%N, [97; 112; 112; 108; 105; 99; 97; 116; 105; 111; 110; 47; 118; 110; 100; 46; 111; 112; 101; 110; 120; 109; 108; 102; 111; 114; 109; 97; 116; 115; 45; 112; 97; 99; 107; 97; 103; 101; 46; 114; 101; 108; 97; 116; 105; 111; 110; 115; 104; 105; 112; 115; 43; 120; 109; 108]%N)], [([47; 97; 46; 98; 105; 110]%N, [97; 112; 112; 108; 105; 99; 97; 116; 105; 111; 110; 47; 118; 110; 100; 46; 111; 112; 101; 110; 120; 109; 108; 102; 111; 114; 109; 97; 116; 115; 45; 111; 102; 102; 105; 99; 101; 100; 111; 99; 117; 109; 101; 110; 116; 46; 112; 114; 101; 115; 101; 110; 116; 97; 116; 105; 111; 110; 109; 108; 46; 112; 114; 105; 110; 116; 101; 114; 83; 101; 116; 116; 105; 110; 103; 115]%N); ([47; 98; 46; 98; 105; 110]%N, [97; 112; 112; 108; 105; 99; 97; 116; 105; 111; 110; 47; 118; 110; 100; 46; 111; 112; 101; 110; 120; 109; 108; 102; 111; 114; 109; 97; 116; 115; 45; 111; 102; 102; 105; 99; 101; 100; 111; 99; 117; 109; 101; 110; 116; 46; 115; 112; 114; 101; 97; 100; 115; 104; 101; 101; 116; 109; 108; 46; 112; 114; 105; 110; 116; 101; 114; 83; 101; 116; 116; 105; 110; 103; 115]%N)])));
+   ([47; 95; 114; 101; 108; 115; 47; 46; 114; 101; 108; 115]%N, mkW 2 1 (Some [mkRel [114; 73; 100; 49]%N [104; 116; 116; 112; 58; 47; 47; 115; 99; 104; 101; 109; 97; 115; 46; 111; 112; 101; 110; 120; 109; 108; 102; 111; 114; 109; 97; 116; 115; 46; 111; 114; 103; 47; 111; 102; 102; 105; 99; 101; 68; 111; 99; 117; 109; 101; 110; 116; 47; 50; 48; 48; 54; 47; 114; 101; 108; 97; 116; 105; 111; 110; 115; 104; 105; 112; 115; 47; 112; 114; 105; 110; 116; 101; 114; 83; 101; 116; 116; 105; 110; 103; 115]%N [97; 46; 98; 105; 110]%N MInt; mkRel [114; 73; 100; 50]%N [104; 116; 116; 112; 58; 47; 47; 115; 99; 104; 101; 109; 97; 115; 46; 111; 112; 101; 110; 120; 109; 108; 102; 111; 114; 109; 97; 116; 115; 46; 111; 114; 103; 47; 111; 102; 102; 105; 99; 101; 68; 111; 99; 117; 109; 101; 110; 116; 47; 50; 48; 48; 54; 47; 114; 101; 108; 97; 116; 105; 111; 110; 115; 104; 105; 112; 115; 47; 112; 114; 105; 110; 116; 101; 114; 83; 101; 116; 116; 105; 110; 103; 115]%N [98; 46; 98; 105; 110]%N MInt]) None);
+   ([47; 97; 46; 98; 105; 110]%N, mkW 3 0 None None);
+   ([47; 98; 46; 98; 105; 110]%N, mkW 4 0 None None)].
+Definition n_a_bin : str := [47; 97; 46; 98; 105; 110]%N.
+Definition n_b_bin : str := [47; 98; 46; 98; 105; 110]%N.
+Definition n_ppt_slides_slide1_xml : str := [47; 112; 112; 116; 47; 115; 108; 105; 100; 101; 115; 47; 115; 108; 105; 100; 101; 49; 46; 120; 109; 108]%N.
+Definition n_ppt_media_image1_png : str := [47; 112; 112; 116; 47; 109; 101; 100; 105; 97; 47; 105; 109; 97; 103; 101; 49; 46; 112; 110; 103]%N.
+Definition n_ppt_presentation_xml : str := [47; 112; 112; 116; 47; 112; 114; 101; 115; 101; 110; 116; 97; 116; 105; 111; 110; 46; 120; 109; 108]%N.
+Definition n_docProps_thumbnail_jpeg : str := [47; 100; 111; 99; 80; 114; 111; 112; 115; 47; 116; 104; 117; 109; 98; 110; 97; 105; 108; 46; 106; 112; 101; 103]%N.
+Definition n_ppt_slides__rels_slide1_xml_rels : str := [47; 112; 112; 116; 47; 115; 108; 105; 100; 101; 115; 47; 95; 114; 101; 108; 115; 47; 115; 108; 105; 100; 101; 49; 46; 120; 109; 108; 46; 114; 101; 108; 115]%N.
+Definition ct_pml_ps : str := [97; 112; 112; 108; 105; 99; 97; 116; 105; 111; 110; 47; 118; 110; 100; 46; 111; 112; 101; 110; 120; 109; 108; 102; 111; 114; 109; 97; 116; 115; 45; 111; 102; 102; 105; 99; 101; 100; 111; 99; 117; 109; 101; 110; 116; 46; 112; 114; 101; 115; 101; 110; 116; 97; 116; 105; 111; 110; 109; 108; 46; 112; 114; 105; 110; 116; 101; 114; 83; 101; 116; 116; 105; 110; 103; 115]%N.
+Definition ct_sml_ps : str := [97; 112; 112; 108; 105; 99; 97; 116; 105; 111; 110; 47; 118; 110; 100; 46; 111; 112; 101; 110; 120; 109; 108; 102; 111; 114; 109; 97; 116; 115; 45; 111; 102; 102; 105; 99; 101; 100; 111; 99; 117; 109; 101; 110; 116; 46; 115; 112; 114; 101; 97; 100; 115; 104; 101; 101; 116; 109; 108; 46; 112; 114; 105; 110; 116; 101; 114; 83; 101; 116; 116; 105; 110; 103; 115]%N.
+Definition ct_slide : str := [97; 112; 112; 108; 105; 99; 97; 116; 105; 111; 110; 47; 118; 110; 100; 46; 111; 112; 101; 110; 120; 109; 108; 102; 111; 114; 109; 97; 116; 115; 45; 111; 102; 102; 105; 99; 101; 100; 111; 99; 117; 109; 101; 110; 116; 46; 112; 114; 101; 115; 101; 110; 116; 97; 116; 105; 111; 110; 109; 108; 46; 115; 108; 105; 100; 101; 43; 120; 109; 108]%N.
+Definition ct_png : str := [105; 109; 97; 103; 101; 47; 112; 110; 103]%N.
+
+Lemma ex_deck_wfb : wfb wenv ex_deck = true.
+Proof. vm_compute. reflexivity. Qed.
+Lemma ex_deck_wf : wf wenv ex_deck.
+Proof. apply wfb_sound, ex_deck_wfb. Qed.
+Lemma ex_deck_no_clash : no_default_clash wenv ex_deck.
+Proof. apply no_default_clashb_sound; [apply ex_deck_wfb|vm_compute; reflexivity]. Qed.
+
+Lemma ex_clash_wfb : wfb wenv ex_clash = true.
+Proof. vm_compute. reflexivity. Qed.
+
+Lemma ex_clash_reach_a : reachable wenv ex_clash n_a_bin.
+Proof. eapply r1; [apply r0|]. vm_compute. auto. Qed.
+
+Lemma payload_type_refuted :
+  exists (p : phys wblob) k q ct ct',
+    wf wenv p /\ codec_ok wenv /\ env_ok wenv /\ load wenv p = Ok k /\
+    reachable wenv p q /\ q <> root /\
+    ct_in wenv p q = Ok ct /\ ct_in wenv (save wenv k) q = Ok ct' /\ ct <> ct'.
+Proof.
+  destruct (load wenv ex_clash) as [k|e] eqn:El; [|vm_compute in El; discriminate].
+  exists ex_clash, k, n_a_bin, ct_pml_ps, ct_sml_ps.
+  split; [apply wfb_sound, ex_clash_wfb|]. split; [apply wenv_codec_ok|]. split; [apply wenv_env_ok|].
+  split; [exact El|]. split; [apply ex_clash_reach_a|]. split; [discriminate|].
+  split; [vm_compute; reflexivity|]. split; [|discriminate].
+  vm_compute in El. inversion El; subst k. vm_compute. reflexivity.
 Qed.
